@@ -57,13 +57,15 @@ type lockAttack struct {
 	forged  map[string]bool
 	maxRoundSeen int32
 	aborted      bool
+	crashLocked  bool // crash the locked validator right after it broadcast its round-0 block precommit
+	crashArmed   bool
 	unfolded     bool // b's forged prevote for the second block was sent to the locked validator
 }
 
 func newByzState(r *Router) *byzState {
 	b := &byzState{r: r, seen: map[int64][]decision{}, splits: map[string]*split{}, propSplit: map[string]map[int]bool{}, propBusy: map[string]bool{}}
 	p := r.plan
-	if p.Strategy == "lock-attack" && r.c.N == 4 && len(r.c.Opt.Byz) == 1 {
+	if (p.Strategy == "lock-attack" || p.Strategy == "lock-attack-crash") && r.c.N == 4 && len(r.c.Opt.Byz) == 1 {
 		h := p.AttackHeight
 		la := &b.la
 		la.active = true
@@ -74,6 +76,7 @@ func newByzState(r *Router) *byzState {
 		la.c = int((h + 3) % 4)
 		la.forged = map[string]bool{}
 		la.phase = 1
+		la.crashLocked = p.Strategy == "lock-attack-crash"
 	}
 	b.initStalePolka()
 	return b
@@ -206,11 +209,35 @@ func (b *byzState) onFinalized(node int, h int64) {
 // laObserve lets the lock attack forge b's votes following d's votes in rounds >= 1.
 func (b *byzState) laObserve(from *Inc, pm *parsed) {
 	la := &b.la
-	if !la.active || pm == nil || pm.Vote == nil {
+	if !la.active || pm == nil {
+		return
+	}
+	if pm.Kind == "roundstate" {
+		// after the locked validator restarted (or the isolated one was let back in) they sit
+		// in round 0 with too few precommits to time out: b's nil precommit is sent again
+		b.mu.Lock()
+		resend := la.crashLocked && la.phase == 2 && pm.Height == la.h && pm.Round == 0 && (from.Idx == la.a || from.Idx == la.d)
+		bInc := b.r.c.Cur(la.b)
+		b.mu.Unlock()
+		if resend {
+			if data := b.forgeVote(b.r.c.Wallets[la.b], la.h, 0, consensus.VoteTypePrecommit, nil, 0); data != nil {
+				b.r.sendForged(bInc, from.Idx, consensus.ProtoVote, data, 0)
+			}
+		}
+		return
+	}
+	if pm.Vote == nil {
 		return
 	}
 	v := pm.Vote
 	b.mu.Lock()
+	if la.crashLocked && !la.crashArmed && la.phase == 1 && from.Idx == la.a && v.Height == la.h && v.Round == 0 &&
+		v.Type == consensus.VoteTypePrecommit && v.BlockPartSetIDAndNTSVoteCount != nil {
+		// the precommit is on its way to the others; the validator dies at its next WAL operation
+		// and every byte that was not yet covered by a Sync is lost
+		la.crashArmed = true
+		from.Wal.Arm(&CrashPoint{OpIndex: 0, Mode: "before", TearBytes: 0})
+	}
 	if la.phase == 1 && v.Height == la.h && v.Round >= 1 {
 		// round 0 did not commit (timing): the script does not apply, give up
 		la.phase = 3
@@ -269,7 +296,7 @@ func (b *byzState) handle(from *Inc, to int, pk *test.Packet, pm *parsed, seq in
 			return true
 		}
 		return b.voteEquiv(from, to, pk, pm)
-	case "lock-attack":
+	case "lock-attack", "lock-attack-crash":
 		return b.lockAttackSend(from, to, pk, pm)
 	}
 	return false
